@@ -86,14 +86,21 @@ def conformant(kind, headers, check_case_and_ws=True):
         if set(pseudo) & REQUEST_PSEUDO:
             return False, 'request-pseudo-in-response'
     else:
+        extended_connect = False
         if method == b'CONNECT':
-            return None, 'connect-request'
+            # RFC 8441 section 4: an extended CONNECT request carries :protocol together with :scheme, :path and :authority,
+            # in any order among the pseudo-header fields; it is then judged like any other request.  A plain CONNECT
+            # (RFC 7540 8.3, :scheme and :path omitted) is left undetermined.
+            if b':protocol' in pseudo and all(x in pseudo for x in (b':scheme', b':path', b':authority')):
+                extended_connect = True
+            else:
+                return None, 'connect-request'
         for req in (b':path', b':method', b':scheme'):
             if req not in pseudo:
                 return False, 'missing-' + req.decode()[1:]
         if b':status' in pseudo:
             return False, 'status-in-request'
-        if b':protocol' in pseudo:
+        if b':protocol' in pseudo and not extended_connect:
             return False, 'protocol-without-connect'
         if pseudo[b':path'] == b'':
             return False, 'empty-path'
